@@ -79,9 +79,26 @@ func (w *world) directStoreKeys(fn *ssa.Function) map[string]bool {
 
 func (g *fgen) setupGinvs() {
 	direct := g.w.directStoreKeys(g.fn)
+	// only invariants of types this function's package can see
+	visible := map[string]bool{}
+	var walk func(p *types.Package)
+	walk = func(p *types.Package) {
+		if p == nil || visible[p.Path()] {
+			return
+		}
+		visible[p.Path()] = true
+		for _, q := range p.Imports() {
+			walk(q)
+		}
+	}
+	if g.fn != nil && g.fn.Pkg != nil {
+		walk(g.fn.Pkg.Pkg)
+	} else if g.fn != nil && g.fn.Parent() != nil && g.fn.Parent().Pkg != nil {
+		walk(g.fn.Parent().Pkg.Pkg)
+	}
 	for _, inv := range g.w.cs.ginvariants {
 		pkg := g.w.allTPkg[inv.pkgPath]
-		if pkg == nil {
+		if pkg == nil || !visible[inv.pkgPath] {
 			continue
 		}
 		ct, err := parseTypeString(inv.recvType)
